@@ -320,6 +320,7 @@ type Contract struct {
 	Skip      map[string]bool // obligation kinds not generated (e.g. safety)
 	MaxPaths  int
 	CaseCalls []CaseCalls
+	SkipTag   string
 	Lemmas    []Clause
 	Covers    bool
 }
@@ -662,6 +663,9 @@ func (cs *ContractSet) parseContractFile(path, pkgPath string) error {
 				cur.Det = append(cur.Det, d)
 			case "writes":
 				cur.Writes = append(cur.Writes, fieldsComma(rest)...)
+			case "skiptag":
+				// decoders leave struct fields tagged <key>:"-" untouched
+				cur.SkipTag = strings.TrimSpace(rest)
 			case "assigns":
 				cur.HasAssign = true
 				if curLoop != nil {
